@@ -27,12 +27,18 @@ ImpSpec(mode, j) ==
     [] mode = "selo" -> [mode |-> "list", list |-> {DName(j)} \cup (IF j = 1 THEN {"mp"} ELSE {})]
 
 (* parameters of module i: [defp, expp, expmp, imps: sequence of modes for modules 1..i-1] *)
+(* quick tier, K = 3: a sample -- p exported iff defined, modes none/all, the top module uses one mode for all *)
+Sample == Tier = "quick" /\ K = 3
 Params(i) ==
   { [defp |-> dp, expp |-> ep, expmp |-> em, imps |-> im] :
       dp \in BOOLEAN, ep \in BOOLEAN, em \in (IF i = 1 /\ K = 2 THEN BOOLEAN ELSE {i = 1}),
-      im \in [1..(i - 1) -> Modes] } 
+      im \in (IF Sample THEN (IF i = K + 1 THEN {[j \in 1..(i - 1) |-> md] : md \in {"none", "all"}}
+                                           ELSE [1..(i - 1) -> {"none", "all"}])
+              ELSE [1..(i - 1) -> Modes]) }
 
-ParamOk(i, pr) == (pr.expp => pr.defp) /\ (i = K + 1 => ~pr.expp)
+ParamOk(i, pr) == /\ pr.expp => pr.defp
+                  /\ i = K + 1 => ~pr.expp
+                  /\ (Sample /\ i <= K) => (pr.expp = pr.defp)
 
 ModuleOf(i, pr) ==
   [name |-> MName(i),
@@ -87,7 +93,8 @@ Emit ==
                                                             goal |-> Sites[s].goal]]]))
   /\ st.phase = "case" =>
         PrintT(ToJson([kind |-> "layout", k |-> K,
-                       mods |-> [i \in 1..(K + 1) |-> [defp |-> st.prm[i].defp, expp |-> st.prm[i].expp, expmp |-> st.prm[i].expmp,
-                                                       imps |-> st.prm[i].imps]],
+                       prm |-> [i \in 1..(K + 1) |-> [defp |-> st.prm[i].defp, expp |-> st.prm[i].expp, expmp |-> st.prm[i].expmp,
+                                                      imps |-> st.prm[i].imps]],
+                       mods |-> st.L,
                        exp |-> Expect(st.L)]))
 =============================================================================
